@@ -190,6 +190,10 @@ let handle () =
                 else rep nrows (fun () -> let k = nint () in rep k nnat) in
      let v = nvec () in
      List.iter (fun (ix, c) -> emit (string_of_n ix); emit (sgz c)) (m_export norb code v)
+   | "UNITRI" ->
+     let nrows = nint () in
+     let code = rep nrows (fun () -> let k = nint () in rep k nnat) in
+     emit (if unitri code then "1" else "0")
    | "IMPORT" ->
      let norb = nnat () in
      let nrows = nint () in
